@@ -38,18 +38,30 @@ from ..api.tracepoint import TracePointConfig as TrPoCo, EventSnapshot, StackFra
 from ..grpc import convert_value
 
 
+def __text(value):
+    """
+    Make sure text can be sent: characters that cannot be encoded (e.g. lone surrogates in a file name) are escaped.
+
+    A single value that cannot be encoded would otherwise make the conversion fail, and the snapshot be dropped.
+    """
+    if isinstance(value, str):
+        return value.encode('utf-8', 'backslashreplace').decode('utf-8')
+    return value
+
+
 def __convert_tracepoint(tracepoint: TrPoCo):
-    return TracePointConfig(ID=tracepoint.id, path=tracepoint.path, line_number=tracepoint.line_no,
-                            args=tracepoint.args,
-                            watches=tracepoint.watches)
+    return TracePointConfig(ID=tracepoint.id, path=__text(tracepoint.path), line_number=tracepoint.line_no,
+                            args={__text(k): __text(v) for k, v in tracepoint.args.items()},
+                            watches=[__text(w) for w in tracepoint.watches])
 
 
 def __convert_frame(frame: StFr):
-    return StackFrame(file_name=frame.file_name, short_path=frame.short_path, method_name=frame.method_name,
-                      line_number=frame.line_number, class_name=frame.class_name, is_async=frame.is_async,
+    return StackFrame(file_name=__text(frame.file_name), short_path=__text(frame.short_path),
+                      method_name=__text(frame.method_name),
+                      line_number=frame.line_number, class_name=__text(frame.class_name), is_async=frame.is_async,
                       column_number=frame.column_number, variables=[__convert_variable_id(v) for v in frame.variables],
                       app_frame=frame.app_frame,
-                      transpiled_file_name=frame.transpiled_file_name,
+                      transpiled_file_name=__text(frame.transpiled_file_name),
                       transpiled_line_number=frame.transpiled_line_number,
                       transpiled_column_number=frame.transpiled_column_number,
                       )
@@ -60,20 +72,20 @@ def __convert_watch_source(source):
 
 
 def __convert_watch(watch: WaRe):
-    return WatchResult(expression=watch.expression, good_result=__convert_variable_id(watch.result),
-                       error_result=watch.error, source=__convert_watch_source(watch.source))
+    return WatchResult(expression=__text(watch.expression), good_result=__convert_variable_id(watch.result),
+                       error_result=__text(watch.error), source=__convert_watch_source(watch.source))
 
 
 def __convert_variable(variable: Var):
-    return Variable(type=variable.type, value=variable.value, hash=variable.hash,
+    return Variable(type=__text(variable.type), value=__text(variable.value), hash=variable.hash,
                     children=[__convert_variable_id(c) for c in variable.children], truncated=variable.truncated)
 
 
 def __convert_variable_id(variable: VarId):
     if variable is None:
         return None
-    return VariableID(ID=variable.vid, name=variable.name, modifiers=variable.modifiers,
-                      original_name=variable.original_name)
+    return VariableID(ID=variable.vid, name=__text(variable.name), modifiers=variable.modifiers,
+                      original_name=__text(variable.original_name))
 
 
 def __convert_lookup(var_lookup):
@@ -95,11 +107,12 @@ def convert_snapshot(snapshot: EventSnapshot) -> Snapshot:
                         var_lookup=__convert_lookup(snapshot.var_lookup),
                         ts_nanos=snapshot.ts_nanos, frames=[__convert_frame(f) for f in snapshot.frames],
                         watches=[__convert_watch(w) for w in snapshot.watches],
-                        attributes=[KeyValue(key=k, value=convert_value(v)) for k, v in snapshot.attributes.items()],
+                        attributes=[KeyValue(key=k, value=convert_value(__text(v))) for k, v in
+                                    snapshot.attributes.items()],
                         duration_nanos=snapshot.duration_nanos,
-                        resource=[KeyValue(key=k, value=convert_value(v)) for k, v in
+                        resource=[KeyValue(key=k, value=convert_value(__text(v))) for k, v in
                                   snapshot.resource.attributes.items()],
-                        log_msg=snapshot.log_msg)
+                        log_msg=__text(snapshot.log_msg))
     except Exception:
         # todo should this return None?
         logging.exception("Error converting to protobuf")
